@@ -13,6 +13,7 @@ import (
 	"path/filepath"
 	"regexp"
 	"strings"
+	"time"
 
 	"github.com/saucelabs/forwarder/ruleset"
 
@@ -27,7 +28,9 @@ type Item struct {
 	C      int      `json:"c,omitempty"`
 	Neg    bool     `json:"neg,omitempty"`
 	Ranges [][2]int `json:"ranges,omitempty"`
-	Rep    string   `json:"rep,omitempty"` // Star Plus Quest
+	Rep    string   `json:"rep,omitempty"` // Star Plus Quest Count
+	Lo     int      `json:"lo,omitempty"`  // Count: x{lo,hi}; hi < 0: x{lo,}
+	Hi     int      `json:"hi,omitempty"`
 	X      *Item    `json:"x,omitempty"`
 	G      string   `json:"g,omitempty"` // Cap NonCap Flagged
 	E      [3]int   `json:"e,omitempty"` // i m s: 0 keep, 1 on, 2 off
@@ -86,6 +89,12 @@ func (it Item) Text() string {
 	case "eol":
 		return "$"
 	case "rep":
+		if it.Rep == "Count" {
+			if it.Hi < 0 {
+				return fmt.Sprintf("%s{%d,}", it.X.Text(), it.Lo)
+			}
+			return fmt.Sprintf("%s{%d,%d}", it.X.Text(), it.Lo, it.Hi)
+		}
 		return it.X.Text() + map[string]string{"Star": "*", "Plus": "+", "Quest": "?"}[it.Rep]
 	case "group":
 		p := ""
@@ -139,6 +148,13 @@ func (it Item) Coq() string {
 	case "eol":
 		return "Eol"
 	case "rep":
+		if it.Rep == "Count" {
+			hi := "None"
+			if it.Hi >= 0 {
+				hi = fmt.Sprintf("(Some %d%%nat)", it.Hi)
+			}
+			return fmt.Sprintf("Rep (Count %d%%nat %s) (%s)", it.Lo, hi, it.X.Coq())
+		}
 		return fmt.Sprintf("Rep %s (%s)", it.Rep, it.X.Coq())
 	case "group":
 		g := it.G
@@ -202,7 +218,7 @@ func genClass(r *rng.R) Item {
 	it := Item{K: "class", Neg: r.Chance(1, 4)}
 	n := 1 + r.Intn(2)
 	for i := 0; i < n; i++ {
-		switch r.Intn(5) {
+		switch r.Intn(6) {
 		case 0:
 			it.Ranges = append(it.Ranges, [2]int{'a', 'z'})
 		case 1:
@@ -213,7 +229,7 @@ func genClass(r *rng.R) Item {
 			lo := int("abfox"[r.Intn(5)])
 			it.Ranges = append(it.Ranges, [2]int{lo, lo + r.Intn(3)})
 		default:
-			c := int("abfoxBR09"[r.Intn(9)])
+			c := int("abfoxBR09,.:_"[r.Intn(13)])
 			it.Ranges = append(it.Ranges, [2]int{c, c})
 		}
 	}
@@ -265,7 +281,17 @@ func genSeq(r *rng.R, depth, n int, ft feat, top bool) []Item {
 			out = append(out, genAtom(r, depth, ft))
 		case k < 10:
 			ft["rep"] = true
-			out = append(out, Item{K: "rep", Rep: []string{"Star", "Plus", "Quest"}[r.Intn(3)], X: ptr(genAtom(r, depth, ft))})
+			if r.Chance(1, 4) {
+				ft["counted"] = true
+				lo := r.Intn(3)
+				hi := lo + r.Intn(3)
+				if r.Chance(1, 4) {
+					hi = -1
+				}
+				out = append(out, Item{K: "rep", Rep: "Count", Lo: lo, Hi: hi, X: ptr(genAtom(r, depth, ft))})
+			} else {
+				out = append(out, Item{K: "rep", Rep: []string{"Star", "Plus", "Quest"}[r.Intn(3)], X: ptr(genAtom(r, depth, ft))})
+			}
 		case k < 12:
 			ft["setflags"] = true
 			out = append(out, Item{K: "setflags", E: genEdit(r)})
@@ -636,6 +662,7 @@ func main() {
 		panic(err)
 	}
 	r := rng.New(*seed)
+	workDir = *out
 
 	type meta struct {
 		RuleCases     int            `json:"rule_cases"`
@@ -652,6 +679,7 @@ func main() {
 		E2ECases      int            `json:"e2e_cases"`
 		E2EProbes     map[string]int `json:"e2e_probes"`
 		E2EError      string         `json:"e2e_error,omitempty"`
+		Concurrent    concReport     `json:"concurrent"`
 		Shards        []string       `json:"shards"`
 		ShardSize     int            `json:"shard_size"`
 		SamplesRule   []string       `json:"samples_rule_texts"`
@@ -673,12 +701,13 @@ func main() {
 			Targets []target `json:"targets"`
 			Deny    []entry  `json:"deny"`
 			Direct  []entry  `json:"direct"`
+			Channel string   `json:"channel"`
 		}
 		if err := json.Unmarshal(data, &rp); err != nil {
 			panic(err)
 		}
 		if rp.Kind == "mitm" {
-			c := e2eCase{rp.Entries, rp.Targets}
+			c := e2eCase{rp.Entries, rp.Targets, rp.Channel}
 			s, _, err := runMITMCase(*fwd, c)
 			if err != nil {
 				fmt.Println("replay:", err)
@@ -688,7 +717,7 @@ func main() {
 			writeJSONL(*out, "mcases.jsonl", []any{c})
 			m.E2ECases = 1
 		} else if rp.Kind == "route" {
-			c := routeCase{rp.Deny, rp.Direct, rp.Targets}
+			c := routeCase{rp.Deny, rp.Direct, rp.Targets, rp.Channel}
 			s, _, err := runRouteCase(*fwd, c)
 			if err != nil {
 				fmt.Println("replay:", err)
@@ -698,7 +727,7 @@ func main() {
 			writeJSONL(*out, "vcases.jsonl", []any{c})
 			m.E2ECases = 1
 		} else if rp.Kind == "e2e" {
-			c := e2eCase{rp.Entries, rp.Targets}
+			c := e2eCase{rp.Entries, rp.Targets, rp.Channel}
 			s, _, err := runE2ECase(*fwd, c)
 			if err != nil {
 				fmt.Println("replay:", err)
@@ -837,6 +866,13 @@ func main() {
 		}
 		m.SamplesList = append(m.SamplesList, ts)
 	}
+	// ---- concurrent requests with opposite verdicts against one in-process proxy handler
+	if *tier == "thorough" {
+		m.Concurrent = concurrentRun(r, 12, 3*time.Second)
+	} else {
+		m.Concurrent = concurrentRun(r, 4, 1200*time.Millisecond)
+	}
+
 	// ---- stream 3: the real binary with --deny-domains
 	if *fwd != "" {
 		nE2E := 14
